@@ -31,7 +31,10 @@ void note_site(BudgetState &b) {
     // heap trips (plain/g++ build only) also name the innermost library function: an allocation driven by a length field
     // (readString) is another defect than one driven by dimensions or header counts
     if (std::strncmp(b.kind, "heap", 4) == 0) s += "/" + innermost_ezc3d_fn();
-    else if (s == "ezc3d::ParametersNS::Parameters::Parameters" && !in_parameter_values()) s += "/outside-parameter-values";
+    // the known finding in the parameter section is "values are read according to the stored dimensions": a trip is that
+    // finding only if the reads went into the value readers. Where the LAST read happened says little (the count crosses
+    // the limit wherever it happens to), so the reads of the second half of the budget were sampled.
+    else if (s == "ezc3d::ParametersNS::Parameters::Parameters" && (b.samples ? 2 * b.samples_in_values < b.samples : !in_parameter_values())) s += "/outside-parameter-values";
     std::snprintf(b.site, sizeof b.site, "%s", s.c_str());
 }
 } // namespace
@@ -47,6 +50,14 @@ void budget_set_probes(int (*phase_fn)(), ClaimedCounts (*claim_fn)()) { t_phase
 // called by the read seam before it counts a read
 void budget_note_phase(BudgetState &b) {
     if (!b.in_data && t_phase_fn && t_phase_fn() == 1) { b.in_data = true; b.reads_at_data = b.reads; b.bytes_at_data = b.bytes; }
+    if (!b.in_data && (b.reads & 63) == 0 && b.reads > b.max_reads / 2) {
+        HarnessScope hs; // the symboliser allocates: no scheduling point, no budget accounting
+        bool armed = b.armed;
+        b.armed = false;
+        b.samples++;
+        if (in_parameter_values()) b.samples_in_values++;
+        b.armed = armed;
+    }
 }
 
 // A budget is exceeded. Returns true if the load may go on (trip explained by the counts the file claims and the
